@@ -922,7 +922,7 @@ impl<'tcx> Cx<'tcx> {
                         Some(a) => a.defaultness(tcx).has_value(),
                         None => true,
                     };
-                    if gens.count() == 0 && has_value {
+                    if !gens.requires_monomorphization(tcx) && has_value {
                         let r = std::panic::catch_unwind(std::panic::AssertUnwindSafe(|| tcx.const_eval_poly(did)));
                         if let Ok(Ok(val)) = r {
                             if let Some(si) = val.try_to_scalar_int() {
